@@ -262,6 +262,7 @@ structure Cfg where
   ε  : Rat
   lo : Nat → Option Rat     -- lower_bounds (`none` = −∞)
   hi : Nat → Option Rat     -- upper_bounds (`none` = +∞)
+  init : Option (List Vec)  -- initial_solutions (exactly one of x0 / initial_solutions is configured)
 
 /-- `np.clip(v, lower_bounds, upper_bounds)` -/
 def clipV (c : Cfg) (v : Vec) : Vec := fun k => Emit.clip1 (c.lo k) (c.hi k) (v k)
@@ -269,6 +270,11 @@ def clipV (c : Cfg) (v : Vec) : Vec := fun k => Emit.clip1 (c.lo k) (c.hi k) (v 
 structure St where
   parents : List Vec                 -- `self._parents`: what ask_dqd **returned** last
   jac     : Option (List Mat)        -- one Jacobian per parent (None until tell_dqd)
+  empty   : Bool                     -- `self.archive.empty` as the next call will see it (environment, see `observe`)
+
+/-- the start-up condition both `ask_dqd` and `ask` evaluate **at the time of the call**:
+`self.archive.empty and self._initial_solutions is not None` -/
+def startup (c : Cfg) (s : St) : Bool := s.empty && c.init.isSome
 
 inductive Op
   /-- `raw` = sampled parents + perturbation before the clip (which parents, which noise: C08's business);
@@ -277,13 +283,15 @@ inductive Op
   | tellDqd (jacs : List (List (List Rat))) (norms : List (Nat → Rat))
   | ask (noise : List (Nat → Rat))              -- the coefficient draws (ignored when measure gradients are off)
   | tell
+  /-- not a call of the emitter: the archive changed; `empty` is what `archive.empty` now is -/
+  | observe (empty : Bool)
 
 inductive Out
   | rows (rs : List Vec)
   | done
   | error (e : Err)
 
-def init : St := ⟨[], none⟩
+def init : St := ⟨[], none, true⟩
 
 def shapeOk (c : Cfg) (s : St) (jacs : List (List (List Rat))) : Bool :=
   jacs.length == s.parents.length &&
@@ -308,6 +316,8 @@ def askRowsObj (c : Cfg) : List Vec → List Mat → List Vec
 
 def step (c : Cfg) (s : St) : Op → St × Out
   | .askDqd raw =>
+    -- start-up: "returns no solutions"; nothing is stored
+    if startup c s then (s, .rows []) else
     let ps := raw.map (clipV c)
     ({ s with parents := ps }, .rows ps)
   | .tellDqd jacs norms =>
@@ -319,6 +329,9 @@ def step (c : Cfg) (s : St) : Op → St × Out
       | none => (s, .error .value)
     else ({ s with jac := some Js }, .done)
   | .ask noise =>
+    -- start-up (empty archive and initial_solutions configured): the initial solutions, clipped -- whether or not
+    -- gradients were supplied.  On a non-empty archive this branch is never taken.
+    if startup c s then (s, .rows ((c.init.getD []).map (clipV c))) else
     match s.jac with
     | none => (s, .error .runtime)
     | some Js =>
@@ -327,6 +340,7 @@ def step (c : Cfg) (s : St) : Op → St × Out
         else (s, .rows (askRows c s.parents Js noise))
       else (s, .rows (askRowsObj c s.parents Js))
   | .tell => (s, .done)      -- GradientOperatorEmitter defines no `tell`: the inherited no-op
+  | .observe b => ({ s with empty := b }, .done)
 
 def run (c : Cfg) : St → List Op → St
   | s, [] => s
